@@ -281,6 +281,18 @@ def generate(repo, outdir_lean, outdir_json, write_if_changed):
                                     f"      Aoe.Props.C05.Diverge p q) : getAt q s1.root = getAt q s2.root :=\n"
                                     f"  (Aoe.Props.Links.edit_lands_only_there {mod}.classes fuel {cid} hist s s1 s2 vals1 vals2 {mod}.c{cid} rfl\n"
                                     f"    plainOnly_{mod}_{cname} pathsDistinct_{mod}_{cname} h1 h2 (fun _ _ => .error .shape)).2 q hq\n")
+        # every class: each plain link reads back what was pushed (side conditions by `decide`); depth = number of index steps
+        for cid, (cname, links) in enumerate(g.class_defs):
+            depth = max([m2.group(1).count(".hidx") for l2 in links for m2 in [re.search(r"\.(?:plain|objs) \[([^\]]*)\]", l2)] if m2] + [0])
+            laws_src.append(f"theorem allPlainSafe_{mod}_{cname} : Aoe.Props.CommitFrame.allPlainSafe {mod}.classes 3 {mod}.c{cid} {depth} = true := by decide")
+            laws_src.append(f"/-- after the commit of a {cname} (version {v}) the retriever of every plain link holds the value that was pushed through it -/\n"
+                            f"theorem plain_values_{mod}_{cname} (hist : List Nat) (hh : hist.length = {depth}) (vals : List Val) (s s' : Sections)\n"
+                            f"    (h : commitObj {mod}.classes 4 {cid} hist (.strct vals) s = .ok s')\n"
+                            f"    (j a : Nat) (path : List PStep) (acts : List RefreshAct) (names : List Nat) (v : Val)\n"
+                            f"    (hl : {mod}.c{cid}.links[j]? = some (a, .plain path acts names)) (hv : vals[j]? = some v)\n"
+                            f"    (p : List Step) (hp : resolve hist path = some p) : getAt p s'.root = some v :=\n"
+                            f"  Aoe.Props.CommitFrame.commit_plain_values {mod}.classes 3 {cid} hist vals s s' {mod}.c{cid} rfl h\n"
+                            f"    (by rw [hh]; exact allPlainSafe_{mod}_{cname}) j a path acts names v hl hv p hp\n")
         # object-list links: the struct list ends up with as many records as there are objects (side conditions by `decide`)
         for cid, (cname, links) in enumerate(g.class_defs):
             for j, l in enumerate(links):
